@@ -886,13 +886,16 @@ PROPS = {
         "assumptions": ["the tokenizer is immutable while workers exist (checked at compile time: Tokenizer/Dictionary are Send+Sync; source audit for interior mutability)"],
     },
     "C02": {
-        "modules": ["Vibrato.Props.C02", "Vibrato.Props.C02cap"],
+        "modules": ["Vibrato.Props.C02", "Vibrato.Props.C02cap", "Vibrato.Props.C02spec"],
         "theorems": ["Vibrato.viterbi_optimal", "Vibrato.total_cost_prefix",
                      "Vibrato.reported_is_candidate_segmentation", "Vibrato.optimal_among_live_segmentations",
                      "Vibrato.final_boundary_unique", "Vibrato.optimal_among_candidate_segmentations",
                      "Vibrato.all_boundaries_live", "Vibrato.optimal_no_skip", "Vibrato.tokenize_min_cost",
                      "Vibrato.tokenize_min_cost_no_ignore", "Vibrato.tokenize_min_cost_ignore_space",
-                     "Vibrato.tokenize_min_cost_live", "Vibrato.dead_end_cheaper"],
+                     "Vibrato.tokenize_min_cost_live", "Vibrato.dead_end_cheaper",
+                     # the oracle of the C02S predicate (forward DP over ALL candidate segmentations) is itself proved
+                     "Vibrato.specMin_lower_bound", "Vibrato.specMin_attained", "Vibrato.specMin_spec",
+                     "Vibrato.specMin_eq_lattice", "Vibrato.specMin_ne_lattice_deadEnv"],
         "streams": tok_streams("c01", 600, 20000, tok_classifier("C02", lattice_paths_ge2)),
         "rule": "random dictionaries (matrix connector) x sentences x options; non-trivial = the lattice dump "
                 "has a boundary with >= 2 nodes (a real choice); distinct = sha1 of the case input",
